@@ -431,6 +431,37 @@ def _slice_arithmetic(ctx: Ctx, cbs, gpb):
                sample=dict(term=shown, grid_points=n))
     col.count("slice_arith_terms", len(found))
     col.floor("slice_arith_terms", len(found), 9)
+    # early returns: the reported lengths are the requested ones there too, unless the guard means "no sequences at all"
+    pm_ = parent_map(cbs.node)
+    first = cbs.params[0].name
+    for r in rets:
+        if r is last:
+            continue
+        gs = guards_of(pm_, r)
+        gnames = set()
+        for t, pol in gs:
+            for x in ast.walk(t):
+                if isinstance(x, ast.Name):
+                    for d in rd.defs_of(x):
+                        v = d.value
+                        if d.kind == "unpack" and isinstance(v, ast.Tuple) and d.slot and d.slot[0] < len(v.elts):
+                            v = v.elts[d.slot[0]]
+                        if isinstance(v, ast.Call) and isinstance(v.func, ast.Attribute) and v.func.attr == "size" and v.args \
+                                and isinstance(v.args[0], ast.Constant) and u(v.func.value) == first:
+                            gnames.add(v.args[0].value)
+        only_batch = gnames == {0}
+        try:
+            term = ex.term(r.value.elts[1])
+        except MM.Unknown as e:
+            col.undecided(f"C09: early return of chunk_by_slices: {e}")
+            continue
+        # under a guard that also fires for T == 0 (with sequences present) the lengths must still be max(end - start, 0)
+        env, g, w, n = MM.counterexample(term, specs["chunk-lens"][1], (v for v in grid(False) if v["L"] == 0)) if not only_batch else (None, None, None, 1)
+        col.ob("G12", "S6", f"{rel}::chunk_by_slices::early-return-reports-the-requested-lengths", env is None,
+               f"`{u(r)[:80]}` is taken under `{' and '.join(u(t) for t, _ in gs)}`, which also holds for a batch of empty "
+               f"sequences (T == 0): it reports length {g} where slice ({env and env['S']}, {env and env['E']}) requests {w} - a "
+               f"slice lying wholly in the padding of an empty sequence is legal in constant mode", rel, r.lineno,
+               sample=dict(guard_axes=sorted(gnames), term=MM.show(term)))
     # the output extent must not truncate any scatter mask: seen from one row, every position a mask selects lies
     # below the extent the output was allocated with (the batch-wide maximum is at least the row's own value)
     alloc = [c for c in own_calls(cbs.node) if isinstance(c.func, ast.Attribute) and c.func.attr in ("new_full", "new_zeros", "new_empty")
@@ -650,6 +681,7 @@ def _mutants():
         M("new-lens-left-twice", P, "new_lens = lens + pad.sum(0)", "new_lens = lens + pad[0] + pad[0]", "pad-arithmetic[right-buffer-positions]"),
         M("twin:new-lens-spelled-out", P, "right_mask = (new_lens.unsqueeze(1) > arange[:Tp])", "right_mask = ((lens + pad[0] + pad[1]).unsqueeze(1) > arange[:Tp])", "", twin=True),
         M("extent-forgets-right-pad", P, "Tp = int(torch.max(torch.max(left_pad.max(), chunk_lens.max()), right_pad.max()).item())", "Tp = int(torch.max(left_pad.max(), chunk_lens.max()).item())", "output-extent-covers-every-scatter"),
+        M("empty-time-axis-short-circuits", P, "if not N:\n        return (x.new_empty(x.shape), slices.new_zeros((N,)))", "if not N * T:\n        return (x.new_empty(x.shape), slices.new_zeros((N,)))", "early-return-reports-the-requested-lengths"),
         M("twin:rename-left-max", P, "left_max", "lmax", "", -1, twin=True),
     ]
 
